@@ -2068,6 +2068,27 @@ impl<'a, R: FileManager> FrontendCtx<'a, R> {
         visibility: Visibility,
         anchor: &Anchor,
     ) -> Res<Runtype> {
+        self.extract_type_from_ts_entity_name_with_args_in(
+            type_name,
+            ts_type_args,
+            file.clone(),
+            file,
+            visibility,
+            anchor,
+        )
+    }
+
+    /// `type_name` is looked up in `file`; the type arguments are written in `args_file`
+    /// (they differ for `import("./b").Box<L>`)
+    fn extract_type_from_ts_entity_name_with_args_in(
+        &mut self,
+        type_name: &TsEntityName,
+        ts_type_args: &Option<Box<TsTypeParamInstantiation>>,
+        file: BffFileName,
+        args_file: BffFileName,
+        visibility: Visibility,
+        anchor: &Anchor,
+    ) -> Res<Runtype> {
         if let TsEntityName::Ident(ident) = type_name {
             for (n, t) in self.type_application_stack.iter().rev() {
                 if ident.sym == *n {
@@ -2080,7 +2101,7 @@ impl<'a, R: FileManager> FrontendCtx<'a, R> {
             Some(its) => {
                 let mut args = vec![];
                 for ty in &its.params {
-                    let arg_ty = self.extract_type(ty, file.clone())?;
+                    let arg_ty = self.extract_type(ty, args_file.clone())?;
                     args.push(arg_ty);
                 }
                 args
@@ -2728,10 +2749,11 @@ impl<'a, R: FileManager> FrontendCtx<'a, R> {
         {
             match &import_type.qualifier {
                 Some(ts_entity_name) => {
-                    return self.extract_type_from_ts_entity_name(
+                    return self.extract_type_from_ts_entity_name_with_args_in(
                         ts_entity_name,
                         &import_type.type_args,
                         resolved,
+                        file,
                         Visibility::Export,
                         &anchor,
                     );
@@ -2741,7 +2763,7 @@ impl<'a, R: FileManager> FrontendCtx<'a, R> {
                         Some(its) => {
                             let mut args = vec![];
                             for ty in &its.params {
-                                let arg_ty = self.extract_type(ty, resolved.clone())?;
+                                let arg_ty = self.extract_type(ty, file.clone())?;
                                 args.push(arg_ty);
                             }
                             args
